@@ -26,47 +26,29 @@ Definition xres_eqb (a b : xres) : bool :=
 Definition threads_of (p : phase) : list N := map (fun x => snd (fst x)) (ph_starts p).
 
 (* start the Dial calls in order, letting time pass up to each start offset, then run to completion *)
-Fixpoint run_starts (c : dcfg) (s : dstate) (oracle : N -> outcome) (iot : N -> bool) (ts : list N) (t0 : N) (starts : list (N * N * N)) : dstate :=
+Fixpoint run_starts (c : dcfg) (s : dstate) (oracle : N -> outcome) (ts : list N) (t0 : N) (starts : list (N * N * N)) : dstate :=
   match starts with
-  | [] => sim c 400 s oracle iot ts
+  | [] => sim c 400 s oracle ts
   | (off, t, to) :: rest =>
-      let s1 := sim_until c 400 s oracle iot ts (t0 + off) in
+      let s1 := sim_until c 400 s oracle ts (t0 + off) in
       let s2 := match dstep c s1 (LTick (t0 + off - clock s1)) with Some x => x | None => s1 end in
       let s3 := match dstep c s2 (LStart t to) with Some x => x | None => s2 end in
-      run_starts c s3 oracle iot ts t0 rest
+      run_starts c s3 oracle ts t0 rest
   end.
-Definition run_phase (c : dcfg) (s : dstate) (p : phase) (iots : list N) : dstate :=
+Definition run_phase (c : dcfg) (s : dstate) (p : phase) : dstate :=
   let s0 := match ph_setidx p with Some v => mkDS (sem s) v (clock s) (tp s) (inprog s) | None => s end in
-  run_starts c s0 (oracle_of (ph_oracle p)) (fun t => existsb (N.eqb t) iots) (threads_of p) (clock s0) (ph_starts p).
+  run_starts c s0 (oracle_of (ph_oracle p)) (threads_of p) (clock s0) (ph_starts p).
 
 Definition result_of (s : dstate) (t : N) : option xres :=
   match tp s t with TDone r _ _ _ _ => Some r | _ => None end.
 
-Fixpoint subsets (l : list N) : list (list N) :=
-  match l with
-  | [] => [[]]
-  | x :: r => let ss := subsets r in ss ++ map (cons x) ss
-  end.
-Definition phase_matches (s' : dstate) (p : phase) : bool :=
-  forallb (fun d : dobs => match d with (t, _, r, _) => option_eqb xres_eqb (result_of s' t) (Some r) end) (ph_results p)
-  && (sem s' =? 0).
-Fixpoint first_match (c : dcfg) (s : dstate) (p : phase) (cands : list (list N)) : option dstate :=
-  match cands with
-  | [] => None
-  | iots :: r => let s' := run_phase c s p iots in
-                 if phase_matches s' p then Some s' else first_match c s p r
-  end.
-
-(* which threads had their connect cut by the socket deadline rather than by the context is not observable
-   beforehand: some choice must explain what every Dial of the phase returned *)
 Fixpoint dial_corr (c : dcfg) (s : dstate) (phases : list phase) : bool :=
   match phases with
   | [] => true
   | p :: rest =>
-      match first_match c s p (subsets (threads_of p)) with
-      | Some s' => dial_corr c s' rest
-      | None => false
-      end
+      let s' := run_phase c s p in
+      forallb (fun d : dobs => match d with (t, _, r, _) => option_eqb xres_eqb (result_of s' t) (Some r) end) (ph_results p)
+      && (sem s' =? 0) && dial_corr c s' rest
   end.
 
 (* every invariant / consequence of the transition system that the concurrent run can show *)
@@ -75,7 +57,7 @@ Definition stress_corr (capn n to maxin : N) (accepting : bool) (rs : list (xres
   forallb (fun r => match fst r with
                     | XOk a => accepting && (a <? n)
                     | XTimeout a => negb accepting && (a <? n)
-                    | XErr a => negb accepting && (a <? n) end) rs.
+                    | XErr _ => false end) rs.
 
 Definition corr_ok (c : c41case) : bool :=
   match c with
